@@ -10,7 +10,9 @@
 (* cfg.on_enter[s], cfg.on_exit[s], cfg.on_notrans, cfg.on_output : BOOLEAN (observed)   *)
 (* cfg.chain[s] : what the entry action of s requests when the causing event's data has  *)
 (*     chain = 1:  [on, goto (0 = table event), e, tag, prop (chain flag of the new      *)
-(*     event), double (the request is made twice)]                                       *)
+(*     event), double (the request is made twice), always (the request is made whatever  *)
+(*     the data says, i.e. also during the initialisation), cnd (scripted result of the  *)
+(*     cond_ callbacks for the requested event)]                                         *)
 (* cfg.xchain[s] : BOOLEAN - the exit action of s sends an event to its own FSM when the *)
 (*     causing event's data has xc = 1: always a forbidden recursive event() call        *)
 (*     (property C11: the only permitted window is the entry action)                     *)
@@ -77,8 +79,8 @@ Link(cfg, target, d, d0, out, k, log) ==
         log1 == log \o Cbs("enter", cfg.enter[target], target, seen, d.tag)
         ch   == cfg.chain[target]
         sch  == IF ChainUpdatesCtx THEN d.chain ELSE d0.chain      \* the flag the action reads
-    IN  IF ch.on /\ sch = 1
-        THEN LET nd  == [tag |-> ch.tag, chain |-> ch.prop, cond |-> 1, condf |-> 1, xc |-> d.xc]
+    IN  IF ch.on /\ (ch.always \/ sch = 1)
+        THEN LET nd  == [tag |-> ch.tag, chain |-> ch.prop, cond |-> ch.cnd, condf |-> ch.cnd, xc |-> d.xc]
                  req == Request(cfg, target, out, ch, nd, log1)
                  \* the requesting entry action goes on after event() returned and must still
                  \* see the data of its own event
